@@ -106,6 +106,27 @@ def _standin(rep, tier, seed, only_search=False):
             if not ok2:
                 rep.violation("sliced Wasserstein law '%s' fails on %s" % (name, {"PD1": P1, "PD2": P2, "PD3": P3, "M": M, "shift": c}),
                               "sw:law:" + name, {"input": {"PD1": P1, "PD2": P2, "PD3": P3, "M": M, "shift": c}, "observed": d})
+    # shared operands: the same float64 arrays used in several calls (pairwise matrices, triangle checks); every call must still
+    # return the distance of the diagrams as the caller built them
+    from persim import sliced_wasserstein as _swf
+    for it in range(25 if tier == "quick" else 500):
+        lo, hi = rng.choice([(0, 4), (-3, 3), (10, 14)])
+        lists = [_rand(rng, rng.randint(1, 5), lo, hi) for _ in range(3)]
+        arrs = [np.array(L, dtype=float) for L in lists]
+        M = rng.choice([1, 5, 20])
+        seq = [(0, 1), (0, 2), (1, 0), (0, 1), (2, 1), (1, 1)]
+        for (i, j) in seq:
+            with warnings.catch_warnings():
+                warnings.simplefilter("ignore")
+                got = float(_swf(arrs[i], arrs[j], M=M))
+            want = _oracle(lists[i], lists[j], M)
+            evals += 1
+            if got != got or abs(got - want) > _tol(lists[i], lists[j], want):
+                rep.violation("sliced_wasserstein on arrays already used in earlier calls = %r, but the averaged sorted-L1 cost of the diagrams as built is %r (call sequence %s on three shared arrays, this call %s)" % (got, want, seq, (i, j)),
+                              "sw:shared-operands", {"input": {"diagrams": lists, "M": M, "sequence": seq, "failing_call": [i, j]}, "observed": got, "expected": want})
+                if only_search:
+                    return
+                break
     # every number of directions M = 1..130 (and a few larger) on one fixed pair: the direction schedule must be exactly (1/2 + i/M) pi
     A0, B0 = [[0.0, 1.5], [0.5, 3.0], [2.0, 2.25]], [[0.25, 2.0], [1.0, 1.75]]
     for M in list(range(1, 131)) + [196, 200, 257, 500]:
